@@ -651,7 +651,115 @@ fn events_scan(sc: &Scanner, input: &[u8], at: Option<&[u64]>, inside: &mut (dyn
     }
 }
 
+fn full_scan_file(sc: &Scanner, path: &std::path::Path) -> Value {
+    match std::panic::catch_unwind(std::panic::AssertUnwindSafe(|| {
+        let (err, r) = match sc.scan_file(path) {
+            Ok(r) => (None, r),
+            Err((e, r)) => (Some(error_name(&e)), r),
+        };
+        json!({"error": err, "rules": r.rules.iter().map(rule_json).collect::<Vec<_>>()})
+    })) {
+        Ok(v) => v,
+        Err(e) => json!({"panic": bvh::panic_message(&*e)}),
+    }
+}
+
+fn events_scan_file(
+    sc: &Scanner,
+    path: &std::path::Path,
+    at: Option<&[u64]>,
+    inside: &mut (dyn FnMut() -> Value + Send + Sync),
+) -> Value {
+    match std::panic::catch_unwind(std::panic::AssertUnwindSafe(|| {
+        let mut events: Vec<Value> = Vec::new();
+        let mut inner: Vec<Value> = Vec::new();
+        let mut nmatch = 0u64;
+        let res = sc.scan_file_with_callback(path, |ev| {
+            events.push(event_json(&ev));
+            if matches!(ev, ScanEvent::RuleMatch(_)) {
+                nmatch += 1;
+                if let Some(at) = at {
+                    if at.is_empty() || at.contains(&nmatch) {
+                        inner.push(inside());
+                    }
+                }
+            }
+            ScanCallbackResult::Continue
+        });
+        json!({"error": res.err().map(|e| error_name(&e)), "events": events, "inner": inner})
+    })) {
+        Ok(v) => v,
+        Err(e) => json!({"panic": bvh::panic_message(&*e)}),
+    }
+}
+
+/// nest with "file_api": true — the same protocol through scan_file / scan_file_with_callback (inputs written to
+/// scratch files first).
+fn nest_files(case: &Value) -> Value {
+    let sink: Sink = Arc::new(Mutex::new(Vec::new()));
+    let other_case = json!({"rules": case["rules2"], "csymbols": case["csymbols"]});
+    let params = build_params(&case["params"]);
+    let build = |other: bool| -> Result<Scanner, String> {
+        let mut s = compile(if other { &other_case } else { case }, &sink)?;
+        s.set_scan_params(params.clone());
+        Ok(s)
+    };
+    static COUNTER: std::sync::atomic::AtomicU64 = std::sync::atomic::AtomicU64::new(0);
+    let n = COUNTER.fetch_add(1, std::sync::atomic::Ordering::SeqCst);
+    let dir = std::env::temp_dir().join(format!("c13_nest_{}_{}", std::process::id(), n));
+    std::fs::create_dir_all(&dir).expect("scratch dir");
+    let outer_p = dir.join("outer");
+    let inner_p = dir.join("inner");
+    std::fs::write(&outer_p, job_input(&case["outer"])).expect("write");
+    std::fs::write(&inner_p, job_input(&case["inner"])).expect("write");
+    let target = case["target"].as_str().unwrap_or("same");
+    let inner_cb = case["inner_api"].as_str() == Some("callback");
+    let deeper = get_bool(case, "deeper");
+    let at: Vec<u64> = case["at"].as_array().map(|a| a.iter().map(|v| v.as_u64().unwrap()).collect()).unwrap_or_default();
+    let mut nothing = || Value::Null;
+    let out = (|| {
+        let a0 = match build(false) {
+            Ok(s) => s,
+            Err(e) => return json!({"compile_error": e}),
+        };
+        let flat_outer = events_scan_file(&a0, &outer_p, None, &mut nothing);
+        let flat_outer_list = full_scan_file(&build(false).unwrap(), &outer_p);
+        let t0 = match build(target == "other") {
+            Ok(s) => s,
+            Err(e) => return json!({"compile_error": e}),
+        };
+        let flat_inner =
+            if inner_cb { events_scan_file(&t0, &inner_p, None, &mut nothing) } else { full_scan_file(&t0, &inner_p) };
+        let a = build(false).unwrap();
+        let tgt_owned = match target {
+            "same" => None,
+            "clone" => Some(a.clone()),
+            _ => Some(build(true).unwrap()),
+        };
+        let tgt: &Scanner = tgt_owned.as_ref().unwrap_or(&a);
+        let mut inside = || {
+            if inner_cb {
+                let mut deepest = || full_scan_file(&a, &outer_p);
+                events_scan_file(tgt, &inner_p, if deeper { Some(&[1][..]) } else { None }, &mut deepest)
+            } else {
+                full_scan_file(tgt, &inner_p)
+            }
+        };
+        let nested_outer = events_scan_file(&a, &outer_p, Some(&at[..]), &mut inside);
+        let after_outer = events_scan_file(&a, &outer_p, None, &mut nothing);
+        let after_inner =
+            if inner_cb { events_scan_file(tgt, &inner_p, None, &mut nothing) } else { full_scan_file(tgt, &inner_p) };
+        json!({"flat_outer": flat_outer, "flat_outer_list": flat_outer_list, "flat_inner": flat_inner,
+               "nested_outer": nested_outer, "after_outer": after_outer, "after_inner": after_inner})
+    })();
+    let _ = std::fs::remove_dir_all(&dir);
+    out
+}
+
 fn nest(case: &Value) -> Value {
+    if get_bool(case, "file_api") {
+        return nest_files(case);
+    }
     let sink: Sink = Arc::new(Mutex::new(Vec::new()));
     let other_case = json!({"rules": case["rules2"], "csymbols": case["csymbols"]});
     let params = build_params(&case["params"]);
